@@ -5,6 +5,7 @@ CONSTANTS
   MenuKind = "general"
   MaxDepth = 3
   StartChain = FALSE
+  EmitMin = 0
   Emit = TRUE
 INVARIANT BagMatches
 INVARIANT ListMatches
